@@ -21,6 +21,7 @@
        SparseSetGAC::propagate_gac / to_bipartite_graph iterate `self.domains`: per-key
          independent work, order-insensitive. *)
 Require Import Selen.Model.Prelude Selen.Model.Dom Selen.Model.SparseSet.
+Require Import Selen.Generated.Consts.   (* 128 / 6 / 4 below are regenerated from the source *)
 
 Definition res := (store * bool * bool)%type.
 
